@@ -71,7 +71,18 @@ class ScriptEngine:
             status, success, stop, _ = EngineBase.add_to_path(path, snap, left, right)
             if stop:
                 return success, status
-        raise RuntimeError("script too short: trajectory did not stop")
+        # script exhausted without leaving [left, right]: the trajectory lingers at its last value
+        while True:
+            k += 1
+            snap = System()
+            snap.order = [seq[-1]]
+            snap.config = (f"traj{len(self.calls)}", k)
+            snap.vel_rev = reverse
+            snap.vpot = 0.0
+            snap.gid = next(self.gid)
+            status, success, stop, add = EngineBase.add_to_path(path, snap, left, right)
+            if stop or not add:
+                return success, status
 
 
 def frames_snapshot(p):
@@ -169,4 +180,49 @@ def run_shoot(w):
                     info.update(n_old=n_old, n_new=n_new, rule_accepts=rule)
                     if rule != acc:
                         bad.append(f"length rule: u={w['u']} n_old/n_new={n_old}/{n_new} rule says {'accept' if rule else 'reject'} but move was {status}")
+    return bad, info
+
+
+def run_swap(w):
+    """w: dict(old0, old1, intf0, intf1, maxlength, start_cond0, back, forw, moves, u, cap).  Runs the REAL
+    retis_swap_zero with scripted engines and checks the C11/C09 clauses natively."""
+    from infretis.core import tis
+
+    old0, old1 = mk_old_path(w["old0"]), mk_old_path(w["old1"])
+    for k, x in enumerate(old1.phasepoints):
+        x.gid = 100 + k
+    b0, b1 = frames_snapshot(old0), frames_snapshot(old1)
+    tis_set = {"maxlength": w["maxlength"]}
+    if w.get("cap") is not None:
+        tis_set["interface_cap"] = w["cap"]
+    rg = ScriptRgen(randoms=[w.get("u", 0.5)])
+    e0 = {"interfaces": tuple(w["intf0"]), "tis_set": tis_set, "rgen": rg, "start_cond": tuple(w["start_cond0"]), "ens_name": "000", "mc_move": w.get("moves", ["sh", "sh"])[0]}
+    e1 = {"interfaces": tuple(w["intf1"]), "tis_set": tis_set, "rgen": ScriptRgen(), "start_cond": ("L",), "ens_name": "001", "mc_move": w.get("moves", ["sh", "sh"])[1]}
+    eng0, eng1 = ScriptEngine([w["back"]]), ScriptEngine([w["forw"]])
+    picked = {-1: {"ens": e0, "traj": old0}, 0: {"ens": e1, "traj": old1}}
+    bad = []
+    try:
+        acc, paths, status = tis.retis_swap_zero(picked, {-1: [eng0], 0: [eng1]})
+    except Exception as e:
+        return [f"retis_swap_zero raised {e!r}"], {}
+    info = {"accepted": acc, "status": status, "paths": [nv.orders(p) for p in paths], "propagations": len(eng0.calls) + len(eng1.calls)}
+    if acc != (status == "ACC"):
+        bad.append(f"accept={acc} but status={status}")
+    if frames_snapshot(old0) != b0 or frames_snapshot(old1) != b1:
+        bad.append("old path frames changed")
+    lam0 = w["intf0"][2]
+    if set(w["start_cond0"]) == {"L", "R"} and w["old0"][-1] <= min(w["intf0"]):
+        if acc or status != "0-L" or info["propagations"]:
+            bad.append("lambda_-1: left-ending [0-] path not rejected without propagation")
+    if acc:
+        q0, q1 = paths
+        g0 = [getattr(x, "gid", None) for x in q0.phasepoints]
+        g1 = [getattr(x, "gid", None) for x in q1.phasepoints]
+        if g0[-2:] != [100, 101] or nv.orders(q0)[-2:] != w["old1"][:2]:
+            bad.append("new [0-] path does not end with the first two frames of the old [0+] path")
+        n0 = len(w["old0"])
+        if g1[:2] != [n0 - 2, n0 - 1] or nv.orders(q1)[:2] != w["old0"][-2:]:
+            bad.append("new [0+] path does not start with the last two frames of the old [0-] path")
+        bad += ["[0-] " + b for b in check_valid(q0, w["intf0"], w["start_cond0"], w["maxlength"])]
+        bad += ["[0+] " + b for b in check_valid(q1, w["intf1"], ("L",), w["maxlength"])]
     return bad, info
